@@ -53,9 +53,7 @@ theorem intoContainer_not_special {n e} (h : intoContainer n = .err e) : ¬ Spec
 
 theorem enter_not_special {cr key n e} (h : enter cr key n = .err e) : ¬ Special e := by
   unfold enter at h
-  split at h
-  · cases h; simp [Special]
-  · exact intoContainer_not_special h
+  exact intoContainer_not_special h
 
 theorem decodeRoot_not_special {c e} (h : decodeRoot c = .err e) : ¬ Special e := by
   unfold decodeRoot at h
@@ -99,7 +97,7 @@ theorem ensureAdd_err {o con1 key self x e} (h : ensureAdd o con1 key self x = .
 
 theorem ensurePut_err {o con key self x e} (h : ensurePut o con key self x = .err e) : x = .err e := by
   cases x with
-  | ok p => cases p; simp only [ensurePut] at h; split at h <;> contradiction
+  | ok p => cases p; simp only [ensurePut] at h; contradiction
   | err e' => simpa [ensurePut] using h
   | panic => simp [ensurePut] at h
 
